@@ -37,5 +37,5 @@ def ts_mape(expected_y, predicted_y, sample_weight=None):
     dy1 = dy1.sum()
     dy2 = dy2.sum()
     if dy1 == 0:
-        return 0 if dy2 == 0 else numpy.infty
+        return 0 if dy2 == 0 else numpy.inf
     return dy2 / dy1
